@@ -220,6 +220,36 @@ def run(prog: Program, res: Result) -> None:  # noqa: PLR0912, PLR0915
             for t in tg:
                 if is_self_attr(t) or (isinstance(t, ast.Subscript) and root_name(t) == "self"):
                     res.fail("C07.R3", file=cp.file, line=n.lineno, qualname="RenderContext.copy", construct=n, message="copy() writes to the parent context", what="copy() leaves the parent untouched")
+    # the only state a copy may take over from its parent: the template, and (block-scoped only) the extends stacks
+    for n in ast.walk(cp.node):
+        if isinstance(n, (ast.Assign, ast.AugAssign)):
+            tg = n.targets if isinstance(n, ast.Assign) else [n.target]
+            for t in tg:
+                base = t
+                while isinstance(base, (ast.Attribute, ast.Subscript)):
+                    base = base.value
+                if isinstance(base, ast.Name) and base.id == "ctx" and isinstance(t, (ast.Attribute, ast.Subscript)):
+                    txt = norm(t)
+                    what = f"copy(): `{norm(n, 70)}` hands only the template / extends stacks to the child"
+                    if txt == "ctx.template" or txt == "ctx.tag_namespace['extends']":
+                        res.ok("C07.R3", f"{cp.file}:{n.lineno} RenderContext.copy", what, "sanctioned hand-over")
+                    else:
+                        res.fail("C07.R3", file=cp.file, line=n.lineno, qualname="RenderContext.copy", construct=n, message=f"copy() gives the child context the parent's `{txt.split('.', 1)[1]}`: caller state (loops, locals, counters …) becomes visible inside the isolated partial/macro", what=what)
+    # scope stack: pushed/popped only by RenderContext.extend
+    n_sp = 0
+    for mod in prog.modules.values():
+        for c in ast.walk(mod.tree):
+            if isinstance(c, ast.Call) and isinstance(c.func, ast.Attribute) and c.func.attr in ("push", "pop") and isinstance(c.func.value, ast.Attribute) and c.func.value.attr == "scope" and root_name(c.func.value) in ("self", "context", "ctx", "macro_context"):
+                fi = prog.enclosing_function(mod, c)
+                if root_name(c.func.value) == "self" and (fi is None or fi.cls is not ctx):
+                    continue
+                n_sp += 1
+                what = f"`{norm(c)}` inside RenderContext.extend"
+                if fi is not None and fi.cls is ctx and fi.name == "extend":
+                    res.ok("C07.R2", f"{mod.relpath}:{c.lineno} {fi.qualname}", what, "paired in try/finally by extend() (C07.R1)")
+                else:
+                    res.fail("C07.R2", file=mod.relpath, line=c.lineno, qualname=fi.qualname if fi else "", construct=c, message="the render scope stack is pushed/popped by hand outside RenderContext.extend: an early exit (break, error, abandoned generator) leaves the scope pushed and block-bound names leak", what=what)
+    res.floor("C07.R2", "scope push/pop sites", n_sp, 2)
     # render / call tags
     n_iso_tags = 0
     for m in render_methods(prog):
